@@ -488,8 +488,8 @@ func (g *zkpGenerator) unblindOutput(
 		return &psetv2.OwnedInput{
 			Value:        value,
 			Asset:        asset,
-			ValueBlinder: Zero,
-			AssetBlinder: Zero,
+			ValueBlinder: zero32(),
+			AssetBlinder: zero32(),
 		}, nil
 	}
 
@@ -542,7 +542,7 @@ func (g *zkpGenerator) tryUnblindInputs(ins []psetv2.Input) unblindedOuts {
 		prevout := in.GetUtxo()
 		unblindedOut := UnblindOutputResult{
 			Asset:               prevout.Asset,
-			AssetBlindingFactor: Zero,
+			AssetBlindingFactor: zero32(),
 		}
 
 		blindingkeys := g.inBlindingKeys
@@ -643,7 +643,7 @@ func sortUnblindedOuts(
 			in := ins[i]
 			unblindedOuts[i] = UnblindOutputResult{
 				Asset:               in.GetUtxo().Asset,
-				AssetBlindingFactor: Zero,
+				AssetBlindingFactor: zero32(),
 			}
 		}
 	}
